@@ -47,6 +47,16 @@ Definition run1 (inp : list Z) : list Z :=
       | Some (opd, mask, modes, crd, tbl) =>
           eresult earrQ (zernike_remove_a is0q (zp (nc mask) tbl) q_solve opd mask modes crd)
       | None => emalformed end
+    else if op =? 5 then
+      match pall (mask <- parrQ ;; modes <- plist pZ ;; vec <- pbool ;; nrm <- pbool ;; crd <- pcrd ;;
+                  tbl <- plist pentry ;; pret (mask, modes, vec, nrm, crd, tbl)) rest with
+      | Some (mask, modes, vec, nrm, crd, tbl) =>
+          match zernike_basis_a is0q (zp (nc mask) tbl) mask modes vec nrm crd with
+          | Ok (Datatypes.inl cube) => 0 :: 0 :: elist earrQ cube
+          | Ok (Datatypes.inr B) => 0 :: 1 :: earrQ B
+          | Err k => [1; errcode k]
+          end
+      | None => emalformed end
     else emalformed
   | _ => emalformed
   end.
